@@ -283,6 +283,46 @@ func exactEngine(args []string) error {
 				break
 			}
 		}
+		if e.Model == "Lag" {
+			// Two links in one Run, the FIRST with a longer lag: the state table is as wide as the first link's buffer
+			// (that is how the model's own InitialiseStates sizes it), so this case's buffer sits at the front of a row
+			// that is one entry wider than its lag.  The link is still delayed by ITS lag (the specification's outputs and
+			// buffer, unchanged); what the spare entry ends up holding is not asked.
+			k := len(e.States)
+			m3 := factory()
+			p3 := data.NewArray2DFloat64(1, 2)
+			p3.Set2(0, 0, float64(k+1))
+			p3.Set2(0, 1, float64(k))
+			s3 := data.NewArray2DFloat64(2, k+1)
+			for j := 0; j <= k; j++ {
+				s3.Set2(0, j, float64(3+j))
+				s3.Set2(1, j, 12345)
+			}
+			for j, v := range e.States {
+				s3.Set2(1, j, v.f())
+			}
+			o3 := data.NewArray3DFloat64(2, len(desc.Outputs), T)
+			if pm := protect(func() {
+				m3.ApplyParameters(p3)
+				m3.Run(iArr, s3, o3)
+			}); pm != "" {
+				fail("panic", pm+" (second link of two, state table one entry wider than its lag)")
+			} else {
+				bad := false
+				for t := 0; t < T && !bad; t++ {
+					if got, want := o3.Get3(1, 0, t), c.Out[0][t].f(); !nearly(got, want, scale) {
+						fail("output", fmt.Sprintf("second of two links (lags %d and %d, state table %d wide): output[%d] = %v, the inflow delayed by %d steps is %v", k+1, k, k+1, t, got, k, want))
+						bad = true
+					}
+				}
+				for j := range c.St {
+					if got, want := s3.Get2(1, j), c.St[j].f(); !bad && !nearly(got, want, scale) {
+						fail("state", fmt.Sprintf("second of two links (lags %d and %d, state table %d wide): buffer entry %d = %v, exact value %v", k+1, k, k+1, j, got, want))
+						bad = true
+					}
+				}
+			}
+		}
 		if perModel[e.Model] == 2 && len(s.Samples) < 4 {
 			var cj interface{}
 			json.Unmarshal([]byte(line), &cj)
